@@ -156,6 +156,9 @@ func RunCheck(repo, verif, id, tier string) (code int) {
 	ch.Run(c)
 	if tier == "thorough" {
 		runThoroughExtras(c, ch)
+		if os.Getenv("LCV_REPO") == "" || os.Getenv("LCV_SELFTEST") != "" {
+			selfTest(c, ch)
+		}
 	}
 	return c.R.Finish(verif)
 }
